@@ -279,9 +279,13 @@ func (idx *HNSWIndex) Add(vector VectorNode) error {
 		return nil
 	}
 
+	// Register the node before linking it: pruneConnections looks neighbours up
+	// in idx.nodes and drops ids it cannot find, which used to discard every
+	// back-link to the node being inserted once a neighbour's list was full.
+	idx.nodes[id] = node
+
 	// Insert into graph
 	idx.insertNode(node)
-	idx.nodes[id] = node
 
 	idx.mu.Unlock()
 	return nil
